@@ -281,6 +281,110 @@ pub proof fn lemma_names_seq(vs: Seq<asp::Variable>, x: asp::Variable)
 //@     }
 //@end
 
+//@fn src/translating/formula_representation/natural.rs :: fn natural_head_atom
+//@ .ret r
+//@ .attr #[verifier::loop_isolation(false)]
+//@ .spec
+//@     requires fresh_vars@.len() == nrank(a.terms@, a.terms@.len() as int),
+//@     ensures r matches Some(f) ==> head_regular(a.terms@, int_vars@) && is_atom(f, a.predicate_symbol@, head_args_seq(a.terms@, int_vars@, fresh_vars@)),
+//@ .hint before "let mut terms = Vec::<fol::GeneralTerm>::new();"
+//@     let ghost fv0 = fresh_vars@;
+//@ .loop 1 as it
+//@     invariant
+//@         it.seq().len() == a.terms@.len(), forall|q: int| 0 <= q < a.terms@.len() ==> *it.seq()[q] == a.terms@[q],
+//@         terms@.len() == it.index@,
+//@         fresh_vars.remaining().len() == fv0.len() - nrank(a.terms@, it.index@ as int),
+//@         forall|q: int| 0 <= q < fresh_vars.remaining().len() ==> *(#[trigger] fresh_vars.remaining()[q]) == fv0[nrank(a.terms@, it.index@ as int) + q],
+//@         forall|q: int| 0 <= q < it.index@ ==> (#[trigger] spec_reg1(a.terms@[q]) || spec_reg2(a.terms@[q])) && terms@[q] == head_arg(a.terms@, int_vars@, fv0, q),
+//@ .hint before "if is_term_regular_of_first_kind(t)"
+//@     let ghost idx = it.index@ as int;
+//@     proof { assert(*t == a.terms@[idx]); lemma_rank(a.terms@, idx); lemma_positions_prefix(a.terms@, idx + 1, a.terms@.len() as int); if spec_reg1(*t) { lemma_reg1_p2f_some(*t, int_vars@); } }
+//@ .hint before "Some(fol::Formula::AtomicFormula(fol::AtomicFormula::Atom("
+//@     proof {
+//@         lemma_head_regular(a.terms@, int_vars@);
+//@         assert(terms@ =~= head_args_seq(a.terms@, int_vars@, fv0));
+//@     }
+//@end
+
+//@fn src/translating/formula_representation/natural.rs :: fn natural_head_interval
+//@ .ret r
+//@ .attr #[verifier::loop_isolation(false)]
+//@ .spec
+//@     requires fresh_vars@.len() == nrank(a.terms@, a.terms@.len() as int), head_regular(a.terms@, int_vars@),
+//@     ensures exists|fs: Seq<Formula>| r == #[trigger] spec_conjoin(fs) && head_conds_ok(fs, a.terms@, int_vars@, fresh_vars@),
+//@ .hint before "let mut formulas = Vec::<fol::Formula>::new();"
+//@     let ghost fv0 = fresh_vars@;
+//@     let ghost pos = nonreg_positions(a.terms@, a.terms@.len() as int);
+//@ .loop 1 as it
+//@     invariant
+//@         it.seq().len() == a.terms@.len(), forall|q: int| 0 <= q < a.terms@.len() ==> *it.seq()[q] == a.terms@[q],
+//@         formulas@.len() == nrank(a.terms@, it.index@ as int),
+//@         fresh_vars.remaining().len() == fv0.len() - nrank(a.terms@, it.index@ as int),
+//@         forall|q: int| 0 <= q < fresh_vars.remaining().len() ==> *(#[trigger] fresh_vars.remaining()[q]) == fv0[nrank(a.terms@, it.index@ as int) + q],
+//@         forall|k: int| 0 <= k < formulas@.len() ==> #[trigger] cmp2(lo_of(a.terms@, int_vars@, pos[k]), Relation::LessEqual, nvar_term(fv0[k]), Relation::LessEqual, hi_of(a.terms@, int_vars@, pos[k]), formulas@[k]),
+//@ .hint before "if is_term_regular_of_second_kind(t)"
+//@     let ghost idx = it.index@ as int;
+//@     let ghost f0 = formulas@;
+//@     proof { assert(*t == a.terms@[idx]); lemma_rank(a.terms@, idx); lemma_positions_prefix(a.terms@, idx + 1, a.terms@.len() as int); assert(spec_reg1(a.terms@[idx]) || spec_reg2(a.terms@[idx])); }
+//@ .hint after "formulas.push(comp_formula);"
+//@     proof {
+//@         assert(pos[nrank(a.terms@, idx)] == idx);
+//@         assert forall|k: int| 0 <= k < formulas@.len() implies #[trigger] cmp2(lo_of(a.terms@, int_vars@, pos[k]), Relation::LessEqual, nvar_term(fv0[k]), Relation::LessEqual, hi_of(a.terms@, int_vars@, pos[k]), formulas@[k]) by {
+//@             if k < f0.len() { assert(formulas@[k] == f0[k]); }
+//@         }
+//@     }
+//@ .hint before "fol::Formula::conjoin(formulas)"
+//@     proof { assert(head_conds_ok(formulas@, a.terms@, int_vars@, fv0)); }
+//@end
+
+//@fn src/translating/formula_representation/natural.rs :: fn natural_basic_head
+//@ .ret r
+//@ .closure "|v| fol::Variable" as "|v: &String| -> (z: Variable)"
+//@     ensures z == ivar(*v)
+//@ .spec
+//@     requires terms_var_occ(a.terms@, a.terms@.len() as int) < 0x7fff_ffff,
+//@     ensures r matches Some(hf) ==> nat_head_shape(hf, a.terms@, false, a.predicate_symbol@, int_vars@),
+//@ .hint before "if fresh_vars.is_empty()"
+//@     proof {
+//@         if fresh_vars@.len() == 0 {
+//@             assert(head_conds_ok(Seq::<Formula>::empty(), a.terms@, int_vars@, fresh_vars@));
+//@             assert(nat_head_wit(conclusion, a.terms@, false, a.predicate_symbol@, int_vars@, fresh_vars@, Seq::<Formula>::empty(), conclusion));
+//@         }
+//@     }
+//@ .hint before "Some(fol::Formula::QuantifiedFormula {"
+//@     proof {
+//@         let fs = choose|fs: Seq<Formula>| conditions == #[trigger] spec_conjoin(fs) && head_conds_ok(fs, a.terms@, int_vars@, fresh_vars@);
+//@         assert(quantification.variables@ =~= ivars(fresh_vars@));
+//@         assert forall|hf: Formula| head_shape(hf, fresh_vars@, conditions, conclusion) implies #[trigger] nat_head_shape(hf, a.terms@, false, a.predicate_symbol@, int_vars@) by {
+//@             assert(nat_head_wit(hf, a.terms@, false, a.predicate_symbol@, int_vars@, fresh_vars@, fs, conclusion));
+//@         }
+//@     }
+//@end
+
+//@fn src/translating/formula_representation/natural.rs :: fn natural_choice_head
+//@ .ret r
+//@ .closure "|v| fol::Variable" as "|v: &String| -> (z: Variable)"
+//@     ensures z == ivar(*v)
+//@ .spec
+//@     requires terms_var_occ(a.terms@, a.terms@.len() as int) < 0x7fff_ffff,
+//@     ensures r matches Some(hf) ==> nat_head_shape(hf, a.terms@, true, a.predicate_symbol@, int_vars@),
+//@ .hint before "if fresh_vars.is_empty()"
+//@     proof {
+//@         if fresh_vars@.len() == 0 {
+//@             assert(head_conds_ok(Seq::<Formula>::empty(), a.terms@, int_vars@, fresh_vars@));
+//@             assert(nat_head_wit(conclusion, a.terms@, true, a.predicate_symbol@, int_vars@, fresh_vars@, Seq::<Formula>::empty(), conclusion));
+//@         }
+//@     }
+//@ .hint before "Some(fol::Formula::QuantifiedFormula {"
+//@     proof {
+//@         let fs = choose|fs: Seq<Formula>| conditions == #[trigger] spec_conjoin(fs) && head_conds_ok(fs, a.terms@, int_vars@, fresh_vars@);
+//@         assert(quantification.variables@ =~= ivars(fresh_vars@));
+//@         assert forall|hf: Formula| head_shape(hf, fresh_vars@, conditions, conclusion) implies #[trigger] nat_head_shape(hf, a.terms@, true, a.predicate_symbol@, int_vars@) by {
+//@             assert(nat_head_wit(hf, a.terms@, true, a.predicate_symbol@, int_vars@, fresh_vars@, fs, conclusion));
+//@         }
+//@     }
+//@end
+
 // ---- mu: natural where possible, tau* otherwise (callees are stand-ins that record their arguments) ----
 pub uninterp spec fn spec_natural_rule(r: asp::Rule) -> Option<Formula>;
 pub uninterp spec fn spec_tau_star_rule(r: asp::Rule, globals: Seq<String>) -> Formula;
